@@ -1,12 +1,106 @@
-"""Kani units (filled in below)."""
+"""Kani units: small crates under units/kani/<group>/ checked with `cargo kani` (offline). Each assertion message starts with
+`OB:<obligation>`; a harness that verifies discharges the obligations it mentions, a failed check names the one that failed.
+Only COMPLETE harnesses (loop-free, full-domain symbolic inputs, unwinding assertions on) are used: nothing here is bounded."""
+import os, re, shutil, subprocess, time
 from .verus import UnitResult
 
+ROOT = os.path.dirname(os.path.dirname(os.path.abspath(__file__)))
+UNITS = os.path.join(ROOT, 'units', 'kani')
+
+
 def run_group(group, repo, workdir, tier):
-    r = UnitResult('kani:' + group)
-    r.engine = 'kani'
-    r.status = 'tooling'
-    r.tooling.append('kani groups not built yet')
-    return r
+    res = UnitResult('kani:' + group)
+    res.engine = 'kani'
+    t0 = time.time()
+    src = os.path.join(UNITS, group)
+    # a stable build directory so that the compiled dependencies are reused between runs
+    crate = os.path.join(ROOT, '.work', 'kani', group)
+    os.makedirs(crate, exist_ok=True)
+    for name in ('Cargo.toml', 'src', '.cargo'):
+        s, d = os.path.join(src, name), os.path.join(crate, name)
+        if os.path.isdir(s):
+            shutil.rmtree(d, ignore_errors=True)
+            shutil.copytree(s, d)
+        else:
+            shutil.copy(s, d)
+    lock = os.path.join(repo, 'Cargo.lock')
+    if os.path.exists(lock):
+        shutil.copy(lock, os.path.join(crate, 'Cargo.lock'))
+    with open(os.path.join(crate, 'src', 'lib.rs')) as f:
+        text = f.read()
+    harness_obs = {}
+    for m in re.finditer(r'fn (\w+)\(\)\s*\{(.*?)\n\}', text, flags=re.S):
+        obs = re.findall(r'"OB:([\w.\-]+)', m.group(2))
+        if obs:
+            harness_obs[m.group(1)] = sorted(set(obs))
+    cmd = ['cargo', 'kani', '--default-unwind', '20']
+    res.cmd = 'CARGO_NET_OFFLINE=true ' + ' '.join(cmd) + f'  (in units/kani/{group}, Cargo.lock of /repo)'
+    env = dict(os.environ, CARGO_NET_OFFLINE='true')
+    try:
+        p = subprocess.run(cmd, cwd=crate, capture_output=True, text=True, timeout=1500, env=env)
+    except subprocess.TimeoutExpired:
+        res.status = 'tooling'
+        res.tooling.append('cargo kani timed out')
+        return res
+    out = p.stdout + '\n' + p.stderr
+    res.wall_s = time.time() - t0
+    blocks = re.split(r'Checking harness ', out)
+    seen = set()
+    for b in blocks[1:]:
+        name = b.split('...')[0].strip().split('::')[-1]
+        seen.add(name)
+        ok = 'VERIFICATION:- SUCCESSFUL' in b
+        failed_obs = set(re.findall(r'Failed Checks: (?:\[[^\]]*\] )?"?OB:([\w.\-]+)', b))
+        failed_obs |= set(re.findall(r'Status: FAILURE\s*\n\s*- Description: "OB:([\w.\-]+)', b))
+        tm = re.search(r'Verification Time: ([\d.]+)s', b)
+        ms = int(float(tm.group(1)) * 1000) if tm else None
+        for ob in harness_obs.get(name, []):
+            if ob.startswith('canary.'):
+                res.canaries[ob] = (not ok) and (ob in failed_obs or not failed_obs)
+                continue
+            cur = res.obligations.setdefault(ob, {'status': 'discharged', 'msg': '', 'fn': name, 'line': 0, 'time_ms': ms,
+                                                  'contract': f'kani harness {name} (complete: loop-free, all inputs symbolic)'})
+            if not ok:
+                if ob in failed_obs:
+                    cur['status'] = 'failed'
+                    cur['msg'] = f'kani: check failed in harness {name}'
+                    cur['rendered'] = b[-3000:]
+                elif not failed_obs:
+                    cur['status'] = 'undecided'
+                    cur['msg'] = f'kani: harness {name} did not verify (no OB-tagged check reported)'
+                    res.tooling.append(cur['msg'])
+    for h in harness_obs:
+        if h not in seen:
+            res.tooling.append(f'kani: harness {h} was not run: ' + out[-400:].replace('\n', ' '))
+            for ob in harness_obs[h]:
+                if not ob.startswith('canary.'):
+                    res.obligations[ob] = {'status': 'undecided', 'msg': 'harness not run', 'fn': h, 'line': 0, 'contract': ''}
+    for c, fired in res.canaries.items():
+        if not fired:
+            res.tooling.append(f'kani canary {c} did not fail')
+    if res.tooling:
+        res.status = 'tooling'
+    res.pieces = [{'label': f'scru128 crate (registry, version pinned by /repo/Cargo.lock)', 'file': 'Cargo.lock', 'kind': 'dependency',
+                   'lines': [0, 0], 'tokens': 0, 'edits': {}}]
+    return res
+
 
 def setup(workdir):
-    return 0
+    """warm what can be warmed offline: the Kani crate's dependencies and the scratch copy used by replays / bounded suites"""
+    rc = 0
+    try:
+        r = run_group('k1', os.environ.get('VX_REPO', '/repo'), workdir, 'quick')
+        print('setup: kani k1', r.status, [k for k, v in r.obligations.items() if v['status'] != 'discharged'], r.tooling[:2])
+    except Exception as e:  # noqa
+        print('setup: kani warm-up failed (not fatal):', e)
+    try:
+        env = dict(os.environ, VX_NO_RUN='1')
+        tests = sorted(os.listdir(os.path.join(ROOT, 'replays', 'suite')))
+        for t in tests:
+            if t.endswith('.rs'):
+                p = subprocess.run([os.path.join(ROOT, 'tools', 'run_replay.sh'), os.path.join(ROOT, 'replays', 'suite', t)],
+                                   capture_output=True, text=True, timeout=3000, env=env)
+                print('setup: prebuilt', t, 'exit', p.returncode)
+    except Exception as e:  # noqa
+        print('setup: replay harness warm-up failed (not fatal):', e)
+    return rc
